@@ -39,6 +39,8 @@ def mk_source(rnd, cls, k, atypical=False):
             v = None
         else:
             v = rfloat(rnd)
+            if n.startswith('err_') and rnd.random() < 0.3:
+                v = -1            # fitting.errors() hands out the integer marker
         if v is not None:
             setattr(s, n, v)
     if hasattr(s, 'ra_str'):
